@@ -1039,6 +1039,12 @@ impl RelationalSlab {
         }
     }
 
+    /// Replaces this slab's tables with a copy of another slab's tables (in-place restore).
+    pub fn restore_from(&self, other: &Self) {
+        let tables = other.tables.read().clone();
+        *self.tables.write() = tables;
+    }
+
     /// Update a row's columns.
     ///
     /// # Errors
